@@ -426,8 +426,14 @@ def e1(ctx):
     for name in ('PyTreeSpec::HashValue', 'PyTreeSpec::ToString'):
         f = prog.one(name)
         cfg = cfg_of(f)
-        ins = [c for c in calls_in(f.body, {'insert', 'emplace'}) if member_path(c.call_base()) == 'running']
-        ers = [c for c in calls_in(f.body, {'erase'}) if member_path(c.call_base()) == 'running']
+        # the guard set: the function's static local set (whatever it is called)
+        guard = [v.name for v in f.body.find('VarDecl')
+                 if (v.x or {}).get('storageClass') == 'static' and 'set<' in (v.type or '')]
+        if not guard:
+            guard = [v.name for v in f.body.find('VarDecl') if 'unordered_set<' in (v.type or '')]
+        ctx.require(len(guard) == 1, '%s: %d static guard sets' % (name, len(guard)))
+        ins = [c for c in calls_in(f.body, {'insert', 'emplace'}) if member_path(c.call_base()) == guard[0]]
+        ers = [c for c in calls_in(f.body, {'erase'}) if member_path(c.call_base()) == guard[0]]
         ctx.require(len(ins) == 1, '%s: %d insertions into the guard set' % (name, len(ins)))
         i = cfg.cnode_of(ins[0])
         cut = {cfg.cnode_of(e) for e in ers}
